@@ -853,8 +853,9 @@ fn log_tok(log: &[Ex], times: bool) -> String {
         .join(",")
 }
 
-/// which lines can be compared with the model at all (independent of the implementation's behaviour)
-fn comparable(c: &Case) -> bool {
+/// which lines can be compared with the model at all (independent of the implementation's
+/// behaviour); `Some(reason)` = implementation-vs-oracle only
+fn not_comparable(c: &Case) -> Option<&'static str> {
     if c.strat == Strat::Qs && c.srvs.len() > 1 {
         // initial SRTTs are random (1..32 µs): the order is only determined when every server has a
         // distinct number of recorded failures
@@ -862,7 +863,7 @@ fn comparable(c: &Case) -> bool {
         w.sort();
         w.dedup();
         if w.len() != c.srvs.len() {
-            return false;
+            return Some("impl_only_random_srtt_order");
         }
     }
     let batch1 = c.ncr.max(1) == 1 || c.srvs.len() == 1;
@@ -870,15 +871,19 @@ fn comparable(c: &Case) -> bool {
     // a zero-latency reply completes inside the poll that started it: the other members of the batch
     // have not been started yet, and a second caller is not concurrent with a lookup that is already over
     if steps().any(|st| st.lat_ms == 0) && !(batch1 && c.k == 1) {
-        return false;
+        return Some("impl_only_zero_latency_in_batch_or_several_callers");
     }
     // reconnect-and-retry inside a batch of several servers: start of the retry vs replies of the
     // others is decided by timer order on ties
     let reuse_possible = c.srvs.iter().any(|s| s.pre_udp || s.pre_tcp || (s.tcp.is_some() && all_steps(s).any(|st| matches!(st.rep, Rep::Tc | Rep::Cm))));
     if steps().any(|st| st.rep == Rep::Rst) && reuse_possible && !batch1 {
-        return false;
+        return Some("impl_only_reset_on_reused_connection_in_batch");
     }
-    true
+    None
+}
+
+fn comparable(c: &Case) -> bool {
+    not_comparable(c).is_none()
 }
 
 /// paced runs: no decision point of the pool within `M_US` of the deadline or of another reply
@@ -1000,7 +1005,11 @@ fn finish_case(line: &str, c: &Case, r: Result<Result<RunOut, String>, String>, 
     let cmp = comparable(c) && valid && (!c.paced || robust(c, &o));
     if !cmp {
         rec.impl_only += 1;
-        rec.stat(if !comparable(c) { "impl_only_random_srtt_order" } else if !valid { "impl_only_paced_run_late" } else { "impl_only_paced_not_robust" });
+        rec.stat(match not_comparable(c) {
+            Some(r) => r,
+            None if !valid => "impl_only_paced_run_late",
+            None => "impl_only_paced_not_robust",
+        });
     }
     let idx = rec.case(line.to_string(), if cmp { out.clone() } else { "~".into() });
     // ---- statistics
